@@ -149,7 +149,7 @@ static void report(const char *rc)
 	}
 	putchar('\n');
 }
-static void rep(long r) { report(r >= 0 && r != ARCHIVE_EOF ? "ok" : vh_st((int)r)); }
+
 /* for calls whose non-negative return is a plain int status */
 static void reps(int r) { report(vh_st(r)); }
 /* for calls that return a count / truth value when >= 0 */
@@ -258,11 +258,11 @@ static void op_read(char **w, int n)
 	else if (n == 1 && !strcmp(w[0], "next_header2")) reps(archive_read_next_header2(a, ent));
 	else if (n == 2 && !strcmp(w[0], "read_data")) {
 		size_t k = (size_t)atol(w[1]); char *b = malloc(k ? k : 1);
-		rep((long)archive_read_data(a, b, k)); free(b);
+		repb((long)archive_read_data(a, b, k)); free(b);
 	}
 	else if (n == 1 && !strcmp(w[0], "read_data_block")) { const void *b; size_t s; la_int64_t o; reps(archive_read_data_block(a, &b, &s, &o)); }
 	else if (n == 1 && !strcmp(w[0], "data_skip")) reps(archive_read_data_skip(a));
-	else if (n == 1 && !strcmp(w[0], "seek_data")) rep((long)archive_seek_data(a, 0, SEEK_SET));
+	else if (n == 1 && !strcmp(w[0], "seek_data")) repb((long)archive_seek_data(a, 0, SEEK_SET));
 	else if (n == 1 && !strcmp(w[0], "header_position")) repb((long)archive_read_header_position(a));
 	else if (!common_op(w, n)) printf("bad-op\n");
 }
@@ -317,7 +317,7 @@ static void op_write(char **w, int n)
 	else if (n == 4 && !strcmp(w[0], "write_header")) { mk_entry(w[1], w[2], atol(w[3]), 0644, 1); reps(archive_write_header(a, ent)); }
 	else if (n == 2 && !strcmp(w[0], "write_data")) {
 		size_t k = (size_t)atol(w[1]); char *b = calloc(1, k ? k : 1);
-		rep((long)archive_write_data(a, b, k)); free(b);
+		repb((long)archive_write_data(a, b, k)); free(b);
 	}
 	else if (n == 1 && !strcmp(w[0], "finish_entry")) reps(archive_write_finish_entry(a));
 	else if (!common_op(w, n)) printf("bad-op\n");
@@ -335,11 +335,11 @@ static void op_wdisk(char **w, int n)
 	}
 	else if (n == 2 && !strcmp(w[0], "data")) {
 		size_t k = (size_t)atol(w[1]); char *b = calloc(1, k ? k : 1);
-		rep((long)archive_write_data(a, b, k)); free(b);
+		repb((long)archive_write_data(a, b, k)); free(b);
 	}
 	else if (n == 3 && !strcmp(w[0], "data_block")) {
 		size_t k = (size_t)atol(w[1]); char *b = calloc(1, k ? k : 1);
-		rep((long)archive_write_data_block(a, b, k, atol(w[2]))); free(b);
+		repb((long)archive_write_data_block(a, b, k, atol(w[2]))); free(b);
 	}
 	else if (n == 1 && !strcmp(w[0], "finish_entry")) reps(archive_write_finish_entry(a));
 	else if (!common_op(w, n)) printf("bad-op\n");
